@@ -73,12 +73,33 @@ class DexInterp(Interp):
                                      and f.name != "read_null_terminated_string"}
         super().__init__(repo, folder, asg=asg, hooks=hooks)
 
+    def call_function(self, func, args, kwargs=None, recv=None):
+        # the shared interpreter binds the receiver unconditionally: honour @staticmethod / @classmethod
+        for d in getattr(func.node, "decorator_list", ()):
+            if isinstance(d, ast.Name) and d.id == "staticmethod":
+                recv = None
+            elif isinstance(d, ast.Name) and d.id == "classmethod" and func.cls is not None:
+                recv = Ref("class", func.cls)
+        return super().call_function(func, args, kwargs, recv=recv)
+
     def unknown(self, v, node, func):
         """opaque_default=False: follow only the path on which every opaque validation test is false
         (the 'all checks pass' path of `if bad: raise` style code) instead of splitting"""
         if self.opaque_default is not None:
             return self.opaque_default
         return super().unknown(v, node, func)
+
+    def truth_cond(self, c, node, func):
+        if self.opaque_default is not None:
+            r = self.truth_cond_eval(c)
+            return self.opaque_default if r is None else r
+        return super().truth_cond(c, node, func)
+
+    def truth(self, v, node, func):
+        if self.opaque_default is not None and isinstance(v, Bits):
+            v = v.subst(self.asg)
+            return (v.value() != 0) if v.is_const() else self.opaque_default
+        return super().truth(v, node, func)
 
     # ---- streams ------------------------------------------------------------
     def _stream_read(self, st, n, node):
